@@ -38,6 +38,21 @@ INT_VALUES = [0, 1, 2, 3, 5, 7, 10, 100, 255, -1, -3, 1000003]
 FLOAT_VALUES = [0.0, 0.5, 1.5, 2.0, -2.5, 1e3, 1e-3, 3.0]
 STR_VALUES = ["", "a", "ab", "b", "x1", "v%d", "7"]
 SCALARS = "int/float/bool/str/None"
+# Magnitude classes for VARIABLE values in change histories (not for literals of the evaluation batches): a value and
+# steps that are tiny relative to it (<= 1e-9 of its magnitude) but still change it under Python's !=.  A notification
+# path that decides "changed?" with a relative tolerance, a float conversion or a truncation loses exactly these.
+MAGNITUDES = [
+    (1000000000, [1, -1]),
+    (20000000000, [1, 10, -1, -7]),
+    (10 ** 12, [1, 1000, -500]),
+    (3e12, [500.0, 1, -0.5]),
+    (10 ** 15 + 7, [1, 100, -3]),
+    (-20000000000, [1, -10]),
+    (2.5e15, [1.0, -2.0]),
+    (1e-9, [1e-19, -1e-20]),
+    (1e-3, [1e-13, -1e-14]),
+]
+BIG_THRESHOLDS = [1000000000, 20000000005, 10 ** 12 + 500, 3e12 + 250.0, -20000000005, 1e-9 + 5e-20]
 
 
 def rand_value(rng, kinds="ifbsn"):
